@@ -78,6 +78,10 @@ func compareRetryHellos(ch1, ch2 *wire.ClientHello, group uint16, cookie []byte,
 		for _, old := range ch1.KeyShares {
 			if bytes.Equal(old.Key, ks.Key) {
 				add("second hello re-uses a key_exchange value of the first hello")
+			} else if len(ks.Key) >= 32 && len(old.Key) > len(ks.Key) && bytes.Contains(old.Key, ks.Key) {
+				// (a hybrid share is a concatenation of public values: "fresh" also means not
+				// the classical half of a hybrid share that already went out in the clear)
+				add("second hello's share is a part (offset %d) of the first hello's share for group %#04x", bytes.Index(old.Key, ks.Key), old.Group)
 			}
 		}
 	}
@@ -116,6 +120,31 @@ func TestC17(t *testing.T) {
 	}
 	for i := 0; i < mon.Pick(90, 25000); i++ {
 		targets = append(targets, CustomTarget(i))
+	}
+	// hellos whose only share containing X25519 material is a hybrid one (X25519 still listed)
+	for _, pn := range []string{"Chrome_131", "Chrome_133", "Chrome_120_PQ", "Chrome_115_PQ"} {
+		p := ParrotByName(pn)
+		if p.Name == "" {
+			continue
+		}
+		targets = append(targets, Target{Name: p.Name + "+hybrid-share-only", Spec: func() (*tls.ClientHelloSpec, error) {
+			sp, err := tls.UTLSIdToSpec(p.ID)
+			if err != nil {
+				return nil, err
+			}
+			for _, e := range sp.Extensions {
+				if x, ok := e.(*tls.KeyShareExtension); ok {
+					var keep []tls.KeyShare
+					for _, ks := range x.KeyShares {
+						if ks.Group != tls.X25519 {
+							keep = append(keep, ks)
+						}
+					}
+					x.KeyShares = keep
+				}
+			}
+			return &sp, nil
+		}})
 	}
 	targets = append(targets, NoShareTargets()...)                                 // no usable share in the first hello: every TLS 1.3 server answers with a HelloRetryRequest
 	cookieSizes := []int{0, 1, 32, 254, 255, 256, 257, 510, 511, 512, 1000, 20000} // incl. the sizes around multiples of 256: one- vs two-byte length boundaries
